@@ -62,6 +62,8 @@ pub struct RunReport {
     pub sample: Option<Value>,
     /// when set, a simulation deadlock / step limit is a violation of this class (bounded liveness)
     pub liveness_class: Option<String>,
+    /// when an arm enumerates sub-cases inside one run, the spec that reproduces the failing sub-case alone
+    pub spec_override: Option<Value>,
 }
 
 impl RunReport {
@@ -300,8 +302,9 @@ pub fn check(arm: &dyn Arm, tier: Tier, base_seed: u64) -> i32 {
                     if !rep.violations.is_empty() {
                         // keep at most a handful of failing runs, first violation of each
                         if a.failures.len() < 64 {
+                            let fspec = rep.spec_override.clone().unwrap_or_else(|| spec.clone());
                             for v in rep.violations {
-                                a.failures.push((i, seed, spec.clone(), rep.trace.clone(), v));
+                                a.failures.push((i, seed, fspec.clone(), rep.trace.clone(), v));
                             }
                         }
                     }
